@@ -1049,7 +1049,7 @@ pub use convert::*;
 #[cfg(feature = "read")]
 mod convert {
     use super::*;
-    use crate::read::{self, Reader};
+    use crate::read::{self, Reader, ReaderAddress};
     use crate::write::{self, ConvertError, ConvertResult};
 
     /// The result of [`ConvertLineProgram::read_row`].
@@ -1180,6 +1180,8 @@ mod convert {
         #[allow(unused)] // May need LineString::StringRef in future.
         strings: &'a mut write::StringTable,
         address: Option<u64>,
+        /// The address that the source row had when its address was last restarted at 0.
+        from_address: u64,
         state: ConvertLineState,
     }
 
@@ -1303,6 +1305,7 @@ mod convert {
                 line_strings,
                 strings,
                 address: None,
+                from_address: 0,
                 state: ConvertLineState::ReadRow,
             })
         }
@@ -1373,6 +1376,9 @@ mod convert {
             }
             let mut tombstone = false;
             self.address = None;
+            if self.from_row.end_sequence() {
+                self.from_address = 0;
+            }
             self.from_row.reset(self.from_program.header());
             while let Some(instruction) = self
                 .from_instructions
@@ -1380,14 +1386,21 @@ mod convert {
             {
                 match instruction {
                     read::LineInstruction::SetAddress(val) => {
+                        // The address that `from_row.execute` would have compared with.
+                        // It does not advance while skipping a tombstone.
+                        if !tombstone {
+                            self.from_address =
+                                self.from_address.wrapping_add(self.from_row.address());
+                        }
                         // Use address 0 so that all addresses are offsets.
                         self.from_row.reset_address();
                         // Handle tombstones the same way that `from_row.execute` would have.
-                        let tombstone_address =
-                            !0 >> (64 - self.from_program.header().encoding().address_size * 8);
-                        tombstone = val == tombstone_address;
+                        let address_size = self.from_program.header().encoding().address_size;
+                        tombstone =
+                            val < self.from_address || val >= u64::min_tombstone(address_size);
                         if !tombstone {
                             self.address = Some(val);
+                            self.from_address = val;
                         }
                         continue;
                     }
@@ -1416,6 +1429,7 @@ mod convert {
                     if self.from_row.end_sequence() {
                         tombstone = false;
                         self.address = None;
+                        self.from_address = 0;
                     }
                     self.from_row.reset(self.from_program.header());
                     continue;
